@@ -465,6 +465,24 @@ func runBatch(t *testing.T, rc *RunCtx, prop string) {
 		default:
 			want = got // no liveness claim is made for generic signing
 		}
+		if prop == "C08" {
+			// The right verdicts in the wrong places: as many entries signed as the reference signs, but not the same ones.
+			nw, ng, first := 0, 0, -1
+			for i := range want {
+				if want[i] {
+					nw++
+				}
+				if got[i] {
+					ng++
+				}
+				if want[i] != got[i] && first < 0 {
+					first = i
+				}
+			}
+			if first >= 0 && nw == ng {
+				rc.Violate("C08", "verdict-at-wrong-position", fmt.Sprintf("%s of %d (GOMAXPROCS=%d): %d entries were signed, as many as should be, but position %d came back %v where the request at that position, on its own history, must have been %s", kind, len(want), procs, ng, first, ra.States[min(first, len(ra.States)-1)], map[bool]string{true: "signed", false: "refused"}[want[first]]), r)
+			}
+		}
 		for i := range want {
 			if want[i] != got[i] {
 				p, key := "C09", "verdict-differs-from-reference"
